@@ -99,7 +99,11 @@ class AsyncHeaderIter(HeaderIter):
     @property
     def loops(self):
         def inv(s, ex):
-            return z3.And(self.live(s), s.env['n'] == z3.Length(self.out(s)), self.out(s) == self.seen(s), s.env['n'] < self.n)
+            # the invariant speaks about the abstraction (out == input so far, fewer than n handed out); whatever counts the outputs -- the local `n` of the
+            # current text, or the index of a `for ... in range(...)` after a refactoring -- is tied to len(out) when it exists
+            cnt = [s.env['n']] if z3.is_expr(s.env.get('n')) and s.env['n'].sort() == z3.IntSort() else []
+            cnt += [s.ghost[k] for k in s.ghost if k.startswith('#i')]
+            return z3.And(self.live(s), self.out(s) == self.seen(s), z3.Length(self.out(s)) < self.n, *[c == z3.Length(self.out(s)) for c in cnt])
         return {0: LoopSpec(inv=inv)}
 
 
